@@ -8,6 +8,7 @@ require (
 	github.com/hashicorp/eventlogger v0.2.10
 	github.com/hashicorp/eventlogger/filters/encrypt v0.1.8
 	github.com/hashicorp/go-kms-wrapping/v2 v2.0.18
+	github.com/hashicorp/go-multierror v1.1.1
 	golang.org/x/crypto v0.32.0
 	google.golang.org/protobuf v1.36.4
 )
@@ -15,7 +16,6 @@ require (
 require (
 	github.com/davecgh/go-spew v1.1.1 // indirect
 	github.com/hashicorp/errwrap v1.1.0 // indirect
-	github.com/hashicorp/go-multierror v1.1.1 // indirect
 	github.com/hashicorp/go-secure-stdlib/base62 v0.1.2 // indirect
 	github.com/hashicorp/go-secure-stdlib/parseutil v0.1.9 // indirect
 	github.com/hashicorp/go-secure-stdlib/strutil v0.1.2 // indirect
